@@ -17,7 +17,7 @@ from ref import jws as rjws, jwe as rjwe, b64 as rb, keys as rk, selftest
 LEVEL = "exploration"
 RULE = ("positive part: claims = generated JSON objects (str keys; unicode, nesting, ints up to 10^30, floats) optionally with exp/nbf/iat "
         "as datetime (naive, UTC, fixed offsets -12h..+14h, microseconds); header with/without typ, cty, kid; JWS transport (14 algs) "
-        "and JWE transport (registry=JWERegistry; 17 algs x 8 encs); allow-list given as registry, as algorithms= or as both; key as key / key set (kid recorded) / callable; process runs "
+        "and JWE transport (registry=JWERegistry; 17 algs x 8 encs); allow-list given as registry, as algorithms= or as both; key as key / key set (kid recorded) / callable / plain key for encoding and a single-key set for decoding; process runs "
         "with TZ=Asia/Tokyo so that local-time conversions differ from UTC. Oracle: decode(encode(h, c)).claims equals the JSON value of "
         "c with datetimes replaced by calendar.timegm(utctimetuple) (typed equality), header = {typ: JWT} + h (+kid, +epk/iv/tag/p2s/"
         "p2c), caller's header object unchanged. negative part: validly signed (reference) or encrypted payloads that are not JSON or "
